@@ -20,7 +20,10 @@ RULE = (
     'declaration order, equal snapshots per generation, steps observe this '
     'batch\'s process updates. Distinct by (DAG, derivers, placement, '
     'process set); non-trivial when the DAG has at least one edge or a '
-    'deriver.')
+    'deriver. Dynamic worlds: a step deletes a later step, generates a '
+    'flow step, generates two legacy derivers, generates two Step objects '
+    'without flow (they run first, one at a time, in declaration order), '
+    'adds / deletes glob children mid-phase.')
 ASSUMPTIONS = [
     'flows are well-formed DAGs whose dependencies exist (the constructor '
     'rejects others)',
@@ -122,8 +125,10 @@ def world(n, edges, n_derivers, deriver_kind, placement, tss, dynamic=None):
     names = [NAMES[i] for i in range(n)]
     dnames = [f'z{i}' for i in range(n_derivers)]   # sort after flow steps
     all_out = [f'v_{x}' for x in names + dnames]
-    if dynamic in ('generate', 'gen-deriver'):
+    if dynamic in ('generate', 'gen-deriver', 'gen-steps'):
         all_out.append('v_new')
+    if dynamic in ('gen-deriver', 'gen-steps'):
+        all_out.append('v_new2')
     outs_schema = {v: {'_default': None, '_updater': 'set', '_emit': True}
                    for v in all_out}
     shared_schema = {'tok': dict(sched.TOK), 'num': dict(sched.NUM)}
@@ -185,17 +190,46 @@ def world(n, edges, n_derivers, deriver_kind, placement, tss, dynamic=None):
                                'initial_state': {}}]}}},
                 '$else': {'outs': {'v_a': '$tokval'}}}
             extra = {'root': rel(loc, ())}
-        elif dynamic == 'gen-deriver' and i == 0:
-            # a legacy deriver arrives at run time, listed under
-            # 'processes' of a _generate (no flow entry)
+        elif dynamic == 'gen-steps' and i == 0:
+            # two Step objects arrive under 'steps' of a _generate that
+            # has NO flow: steps without flow entries run first, one at a
+            # time, in declaration order
             spec['schema']['root'] = {}
-            newstep = step_spec('new', 'D')
             spec['update'] = {
                 '$n': {1: {'outs': {'v_a': '$tokval'},
                            'root': {'_generate': [{
                                'key': 'gen',
-                               'processes': {'$probes': {'new': newstep}},
+                               'processes': {},
+                               'steps': {'$probes': {
+                                   'new': step_spec('new'),
+                                   'new2': step_spec('new2')}},
                                'topology': {'new': {
+                                   'outs': ('..', 'outs'),
+                                   'shared': ('..', 'shared')},
+                                   'new2': {
+                                   'outs': ('..', 'outs'),
+                                   'shared': ('..', 'shared')}},
+                               'initial_state': {}}]}}},
+                '$else': {'outs': {'v_a': '$tokval'}}}
+            extra = {'root': rel(loc, ())}
+        elif dynamic == 'gen-deriver' and i == 0:
+            # a legacy deriver arrives at run time, listed under
+            # 'processes' of a _generate (no flow entry)
+            spec['schema']['root'] = {}
+            # ... two of them: they run one at a time, in declaration
+            # order, the second seeing what the first wrote in this phase
+            newstep = step_spec('new', 'D')
+            newstep2 = step_spec('new2', 'D')
+            spec['update'] = {
+                '$n': {1: {'outs': {'v_a': '$tokval'},
+                           'root': {'_generate': [{
+                               'key': 'gen',
+                               'processes': {'$probes': {
+                                   'new': newstep, 'new2': newstep2}},
+                               'topology': {'new': {
+                                   'outs': ('..', 'outs'),
+                                   'shared': ('..', 'shared')},
+                                   'new2': {
                                    'outs': ('..', 'outs'),
                                    'shared': ('..', 'shared')}},
                                'initial_state': {}}]}}},
@@ -326,8 +360,11 @@ def check(spec, ex):
         pids = [i['pid'] for i in invs]
         expected = set(alive)
         # dynamic worlds: what exists at phase start
-        if spec['dynamic'] in ('generate', 'gen-deriver') and phase_no >= 2:
+        if spec['dynamic'] in ('generate', 'gen-deriver', 'gen-steps') \
+                and phase_no >= 2:
             expected = expected | {'new'}
+            if spec['dynamic'] in ('gen-deriver', 'gen-steps'):
+                expected = expected | {'new2'}
         if spec['dynamic'] == 'delete' and phase_no >= 1:
             victim = NAMES[n - 1]
             if phase_no >= 2 or True:
@@ -351,12 +388,23 @@ def check(spec, ex):
             return out
         pos = {i['pid']: k for k, i in enumerate(invs)}
         this_tok = {i['pid']: (i['pid'], i['n']) for i in invs}
-        if spec['dynamic'] == 'gen-deriver' and 'new' in pos and any(
+        if spec['dynamic'] in ('gen-deriver', 'gen-steps') and \
+                'new' in pos and any(
                 pos[x] < pos['new'] for x in names if x in pos):
             V('C05.derivers', 'generated-deriver-runs-after-flow-steps',
               f'phase {phase_no}: order {pids}; the deriver generated at '
               f'run time must run before the flow steps')
             return out
+        if spec['dynamic'] in ('gen-deriver', 'gen-steps') and \
+                'new' in pos and 'new2' in pos:
+            seen_by_2 = invs[pos['new2']]['states']['outs'].get('v_new')
+            if pos['new2'] < pos['new'] or seen_by_2 != this_tok['new']:
+                V('C05.derivers', 'generated-derivers-not-one-at-a-time',
+                  f'phase {phase_no}: order {pids}; deriver new2 read '
+                  f'v_new={seen_by_2}, new wrote {this_tok["new"]} in this '
+                  f'phase: derivers generated at run time must run one at '
+                  f'a time in declaration order')
+                return out
         # derivers first, in declaration order, one at a time
         for k, dn in enumerate(dnames):
             if pos.get(dn) != k:
@@ -518,6 +566,7 @@ def jobs(ctx):
         for edges in dags[n][:40 if ctx.quick else None]:
             out.append((n, edges, 0, 'steps', 'flat', (1,), 'generate'))
             out.append((n, edges, 0, 'steps', 'flat', (1,), 'gen-deriver'))
+            out.append((n, edges, 0, 'steps', 'flat', (1,), 'gen-steps'))
         for edges in dags[n]:
             for placement in (('flat', 'split') if ctx.quick
                               else PLACEMENTS):
